@@ -85,6 +85,64 @@ def mutated_locals(body):
     return out
 
 
+def literal_match_formula(e, env, mutated):
+    """`matches!(<tuple / array of expressions>, <literal patterns>)` (a two-arm match answering true / false whose pattern is
+    built from literals, tuples, fixed arrays, alternatives and wildcards only) is the boolean formula it spells: a conjunction
+    per tuple, a disjunction per alternative, an equality per literal. Anything else is not touched."""
+    arms = e.get("arms") or []
+    if len(arms) != 2 or any(a.get("guard") for a in arms):
+        return None
+
+    def boolean(x):
+        x = F.strip(x)
+        if x.get("k") == "Lit" and str(x["value"].get("v")).lower() in ("true", "false"):
+            return str(x["value"].get("v")).lower() == "true"
+        return None
+
+    b0, b1 = boolean(arms[0]["body"]), boolean(arms[1]["body"])
+    if b0 is None or b1 is None or b0 == b1 or arms[1]["pat"].get("p") != "Wild":
+        return None
+    n_lit = [0]
+
+    def conj(parts):
+        parts = [x for x in parts if x != ("lit", True)]
+        if not parts:
+            return ("lit", True)
+        out = parts[0]
+        for x in parts[1:]:
+            out = ("bin", "And", out, x)
+        return out
+
+    def go(pat, ex):
+        p = pat.get("p")
+        if p == "Wild":
+            return ("lit", True)
+        if p == "Lit" and pat["value"].get("lit") == "int":
+            n_lit[0] += 1
+            return ("bin", "Eq", term(ex, env, mutated), ("lit", pat["value"].get("v")))
+        if p == "Or":
+            alts = [go(x, ex) for x in pat["pats"]]
+            if any(a is None for a in alts) or not alts:
+                return None
+            out = alts[0]
+            for a in alts[1:]:
+                out = ("bin", "Or", out, a)
+            return out
+        exs = F.strip(ex)
+        if p == "Tuple" and exs.get("k") == "Tup" and len(exs["elems"]) == len(pat["pats"]):
+            parts = [go(x, y) for x, y in zip(pat["pats"], exs["elems"])]
+            return None if any(a is None for a in parts) else conj(parts)
+        if p == "Slice" and not pat.get("after") and "mid" not in pat and exs.get("k") == "Array" and len(exs["elems"]) == len(pat["before"]):
+            parts = [go(x, y) for x, y in zip(pat["before"], exs["elems"])]
+            return None if any(a is None for a in parts) else conj(parts)
+        return None
+
+    f = go(arms[0]["pat"], e["scrut"])
+    if f is None or not n_lit[0]:
+        return None
+    return f if b0 else ("un", "Not", f)
+
+
 def term(e, env, mutated=frozenset()):
     k = e.get("k")
     if k is None:
@@ -153,6 +211,9 @@ def term(e, env, mutated=frozenset()):
         if sc.get("k") == "Call" and sc["args"]:
             return term(sc["args"][0], env, mutated)
     if k == "Match":
+        lf = literal_match_formula(e, env, mutated)
+        if lf is not None:
+            return lf
         sc = term(e["scrut"], env, mutated)
         arms = []
         for a in e["arms"]:
